@@ -165,7 +165,7 @@ def read(L, s, checksum=True):
             if any(beq(I, x, 0x2F) for x in d):
                 D.add('slash')
             if is_dots(L, d):
-                D.add('dots')
+                R.unspecified = True       # an escaped dot segment: C07 forbids reporting it, C05 does not say it must be an error
             segs.append(d)
         R.sub = segs
     # qualifiers
